@@ -319,7 +319,8 @@ class Balancer:
 
     @staticmethod
     def _unpack_truisms_and(c):
-        return set.union(*[Balancer._unpack_truisms(a) for a in c.args])
+        # every conjunct must hold; a conjunct that cannot be unpacked further is itself a truism
+        return set.union(*[Balancer._unpack_truisms(a) or {a} for a in c.args])
 
     @staticmethod
     def _unpack_truisms_not(c):
@@ -335,7 +336,8 @@ class Balancer:
         if all(vals):
             raise ClaripyBalancerUnsatError
         if vals.count(False) == 1:
-            return Balancer._unpack_truisms(c.args[vals.index(False)])
+            remaining = c.args[vals.index(False)]
+            return Balancer._unpack_truisms(remaining) or {remaining}
         return set()
 
     #
